@@ -32,6 +32,11 @@ PAIRS = {
                         [(0, 1), (1, 2), (2, 3)],
                         [('C1', 'TGT', 1), ('C2', 'TGT', 1), ('C3', 'TGT', 1)], [(0, 1), (1, 2)]),
     # target with two ADJACENT residues of the same name; argument 1 carries one number on both of its residues
+    # reference and target are the SAME species and share one topology object (the target is reference.copy()): an
+    # identity-like map, legal for the constructor
+    'self_to_self': ([('B1', 'RA', 1), ('B2', 'RA', 1), ('B3', 'RB', 2), ('B4', 'RB', 2)],
+                     [(0, 1), (1, 2), (2, 3)],
+                     [('B1', 'RA', 1), ('B2', 'RA', 1), ('B3', 'RB', 2), ('B4', 'RB', 2)], [(0, 1), (1, 2), (2, 3)]),
     'res2_to_res2same': ([('B1', 'RA', 1), ('B2', 'RA', 1), ('B3', 'RB', 2), ('B4', 'RB', 2)],
                          [(0, 1), (1, 2), (2, 3)],
                          [('C1', 'TT', 1), ('C2', 'TT', 1), ('C3', 'TT', 2)], [(0, 1), (1, 2)]),
@@ -104,6 +109,9 @@ class World:
         trecs = [(ri, rn, an, i + 1, tpos[i]) for i, (an, rn, ri) in enumerate(tatoms)]
         self.tsys = System(MemFile(gro_text(trecs), 'tgt.gro'), MemFile(itp_text('TGTMOL', tatoms, tedges), 'TGTMOL.itp'))
         self.tgt = self.tsys[0]
+        if pair == 'self_to_self':
+            self.tgt = self.ref.copy()
+            self.tgt.atoms_positions = tpos.copy()
         self._lazy = {}
         self._base, self._ratoms, self._redges, self._nr = base, ratoms, redges, nr
         # argument 2 collides with argument 0 on everything a cache could be keyed on except the
@@ -210,7 +218,7 @@ class C04(Check):
             'non-trivial = a call event whose result was compared with a freshly built map')
     technique = ('explicit-state breadth-first search over call/mutation histories on the real ExchangeMap with a '
                  'differential oracle (fresh map built from fresh files) after every transition; de Bruijn histories')
-    level_text = ('every history up to depth 3 (quick; 2 on the three special-purpose pairs) / 4-5 (thorough; 3 on those) over an 18-event alphabet (22 on the plain chain pair: plus an argument deformed to a near-degenerate / exactly degenerate anchor frame, a call with a species whose name differs only in letter case and one with the same name and size but other atom names), on 5 reference/target '
+    level_text = ('every history up to depth 3 (quick; 2 on the three special-purpose pairs) / 4-5 (thorough; 3 on those) over an 18-event alphabet (22 on the plain chain pair: plus an argument deformed to a near-degenerate / exactly degenerate anchor frame, a call with a species whose name differs only in letter case and one with the same name and size but other atom names), on 6 reference/target '
                   'pairs x 2 ways of producing arguments (sharing the species topology as System does / independently '
                   'loaded), is executed on the real map and checked after every event; histories of length 101 and 1002 '
                   'containing every ordered pair / triple of events cover the long-history clause')
@@ -369,6 +377,8 @@ class C04(Check):
                     pos[sorted(nb[a0])[1]] = pos[a0] + (np.array([3e-7, -4e-7, 0.0]) if ev[2] == 'near' else 0.0)
                     a.atoms_positions = pos
                     mutated = f'arg{ev[1]}'
+            elif name == 'call_target_itself' and pair == 'self_to_self':
+                pass          # on this pair the target IS a molecule of the reference species: nothing to refuse
             elif name in ('call_wrong_species', 'call_target_itself', 'call_ndarray', 'call_same_name_longer',
                           'call_same_name_shorter', 'call_case_name', 'call_same_name_other_atoms'):
                 bad = {'call_wrong_species': lambda: w.other, 'call_target_itself': lambda: w.tgt,
@@ -423,7 +433,10 @@ class C04(Check):
             return World(pair, mode, seed)
 
         def step(w, ev):
-            return self.step(w, ev, info)
+            V = self.step(w, ev, info)
+            if pair == 'self_to_self':      # own signatures: what fails on this pair is tracked separately
+                V = [('same-species-map/' + sg, dt) for sg, dt in V]
+            return V
 
         def on_transition(hist, ev, viol):
             desc = {'k': 'replay', 'pair': pair, 'mode': mode, 'history': hist + [ev]}
